@@ -626,3 +626,19 @@ func VerifPathPatternProbe(u string, probes []string) []VerifPathProbe {
 	}
 	return out
 }
+
+// VerifGetOutputNodes is domutil.GetOutputNodes.
+func VerifGetOutputNodes(root *html.Node) []*html.Node { return domutil.GetOutputNodes(root) }
+
+// VerifMakeAllLinksAbsolute is domutil.MakeAllLinksAbsolute (it rewrites root in place).
+func VerifMakeAllLinksAbsolute(root *html.Node, pageURL *nurl.URL) {
+	domutil.MakeAllLinksAbsolute(root, pageURL)
+}
+
+// VerifSrcSetAbsolute is what MakeAllSrcSetAbsolute makes of one srcset value (on an <img>).
+func VerifSrcSetAbsolute(srcset string, pageURL *nurl.URL) string {
+	n := dom.CreateElement("img")
+	dom.SetAttribute(n, "srcset", srcset)
+	domutil.MakeAllSrcSetAbsolute(n, pageURL)
+	return dom.GetAttribute(n, "srcset")
+}
